@@ -15,6 +15,7 @@
 import EasyMl.Lemmas.ArithMatrix
 import EasyMl.Lemmas.ShapeIter
 import EasyMl.Lemmas.ArithViews
+import EasyMl.Lemmas.ArithChecked
 
 namespace EasyMl.C03
 open EasyMl
@@ -570,6 +571,195 @@ example : ∀ k, k ≤ 2 → (⟨[3, 4, 12], 1, 3⟩ : Matrix Int).data[k]? = so
   | 0, _ => rfl
   | 1, _ => rfl
   | 2, _ => rfl
+
+/-! ### Operators over views = operators over the materialised tensors -/
+
+/-- **Every operator sees a view operand only through what it shows.**  For well-formed views
+    (in particular for every well-formed composition of the library's adaptors,
+    `library_views_are_operands`), elementwise operations, scalar broadcasts, `scalar_product` and
+    the matrix product give the same outcome on the lazy views as on the tensors obtained by
+    collecting them (`materialise`: shape + elements in iteration order) — value, shape and
+    rejection alike; and the matrix product gives the same outcome on any two views that show the
+    same shape and elements (`TView.Same`), whatever their memory layout. -/
+theorem operators_over_views_eq_materialised [Add α] [Mul α] [Zero α]
+    (l r : Arith.TView ν α) (hl : l.WF) (hr : r.WF) :
+    (∀ op : α → α → α, elementwise op (.view l) (.view r)
+        = elementwise op (.tensor l.materialise) (.tensor r.materialise)) ∧
+    (∀ (op : α → α → α) (s : α), scalarOp op (.view l) s = scalarOp op (.tensor l.materialise) s) ∧
+    vectorProduct (.view l) (.view r) = vectorProduct (.tensor l.materialise) (.tensor r.materialise) ∧
+    matMul l r = matMul (Arith.TView.ofTensor l.materialise) (Arith.TView.ofTensor r.materialise) ∧
+    (∀ l' r' : Arith.TView ν α, Arith.TView.Same l l' → Arith.TView.Same r r' → matMul l r = matMul l' r') := by
+  refine ⟨fun _ => rfl, ?_, rfl, matMul_congr hl hr hl.materialise_same hr.materialise_same,
+    fun l' r' h1 h2 => matMul_congr hl hr h1 h2⟩
+  intro op s
+  show tensorFrom l.shape (l.elems.map (op · s)) = .ok _
+  rw [tensorFrom_eq_ok _ _ (by rw [List.length_map, hl.elems_length]) hl.shape]
+  rfl
+
+/-- **Rejection ⇔ the decidable compatibility check fails**, for every operator and every operand
+    form (well-formed operands): elementwise `+ -` / `elementwise*`, `scalar_product`, the tensor
+    matrix product (whatever the dimensionality of the views), matrix `+ -`, the matrix product;
+    scalar broadcasts, negation and `map` never reject. -/
+theorem reject_iff_not_compatible [Add α] [Mul α] [Zero α] [Neg α] :
+    (∀ (op : α → α → α) (l r : Operand ν α), l.WF → r.WF →
+      ((∃ k, elementwise op l r = .panic k) ↔ elementwiseCompatible l r = false)) ∧
+    (∀ (l r : Operand ν α) (dl dr : ν × Nat), l.WF → r.WF → l.shape = [dl] → r.shape = [dr] →
+      ((∃ k, vectorProduct l r = .panic k) ↔ elementwiseCompatible l r = false)) ∧
+    (∀ (l r : Arith.TView ν α), l.WF → r.WF →
+      ((∃ k, matMul l r = .panic k) ↔ matMulCompatible l r = false)) ∧
+    (∀ (op : α → α → α) (l r : MOperand α), l.WF → r.WF →
+      ((∃ k, mElementwise op l r = .panic k) ↔ mElementwiseCompatible l r = false)) ∧
+    (∀ (l r : MView α), l.WF → r.WF →
+      ((∃ k, mMatMul l r = .panic k) ↔ mMatMulCompatible l r = false)) ∧
+    (∀ (op : α → α → α) (x : Operand ν α) (s : α), x.WF → ∃ T, scalarOp op x s = .ok T) ∧
+    (∀ (f : α → α) (x : MOperand α), x.WF → ∃ M, mMap f x = .ok M) ∧
+    (∀ (x : MOperand α), x.WF → ∃ M, mNeg x = .ok M) := by
+  obtain ⟨h1, h2, h3⟩ := ops_reject_iff (ν := ν) (α := α)
+  refine ⟨?_, ?_, ?_, ?_, ?_, ?_, ?_, ?_⟩
+  · intro op l r hl hr
+    rw [(h1 op l r hl hr).1]
+    simp [elementwiseCompatible]
+  · intro l r dl dr hl hr hls hrs
+    rw [(h2 l r dl dr hl hr hls hrs).1]
+    simp [elementwiseCompatible]
+  · intro l r hl hr
+    -- not two-dimensional on either side: rejected, and the check is false
+    have hbad : ∀ (hnot : ∀ l0 l1 r0 r1, ¬ (l.shape = [l0, l1] ∧ r.shape = [r0, r1])),
+        matMul l r = .panic .explicit ∧ matMulCompatible l r = false := by
+      intro hnot
+      constructor
+      · unfold matMul
+        split
+        · rename_i l0 l1 r0 r1 h1' h2'
+          exact absurd ⟨h1', h2'⟩ (hnot l0 l1 r0 r1)
+        · rfl
+      · unfold matMulCompatible
+        split
+        · rename_i l0 l1 r0 r1 h1' h2'
+          exact absurd ⟨h1', h2'⟩ (hnot l0 l1 r0 r1)
+        · rfl
+    by_cases h2d : ∃ l0 l1 r0 r1, l.shape = [l0, l1] ∧ r.shape = [r0, r1]
+    · obtain ⟨l0, l1, r0, r1, hls, hrs⟩ := h2d
+      rw [(h3 l r l0 l1 r0 r1 hl hr hls hrs).1]
+      simp only [matMulCompatible, hls, hrs, Bool.and_eq_false_iff, decide_eq_false_iff_not,
+        Bool.not_eq_false', decide_eq_true_eq]
+    · have := hbad (fun l0 l1 r0 r1 h => h2d ⟨l0, l1, r0, r1, h⟩)
+      simp [this.1, this.2]
+  · intro op l r hl hr
+    obtain ⟨hok, hbad⟩ := mElementwise_get op l r hl hr
+    by_cases hs : l.size = r.size
+    · obtain ⟨M, hM, _⟩ := hok hs
+      simp [hM, mElementwiseCompatible, hs]
+    · simp [hbad hs, mElementwiseCompatible, hs]
+  · intro l r hl hr
+    obtain ⟨hok, hbad⟩ := mMatMul_get_eq_sum l r hl hr
+    by_cases hs : l.columns = r.rows
+    · obtain ⟨n, hn⟩ : ∃ n, l.columns = n + 1 := ⟨l.columns - 1, by have := hl.cols_pos; omega⟩
+      obtain ⟨A, hA⟩ := hl.exists_entries
+      obtain ⟨B, hB⟩ := hr.exists_entries
+      obtain ⟨M, hM, _⟩ := hok n hn (by rw [← hs]; exact hn) A B hA hB
+      simp [hM, mMatMulCompatible, hs]
+    · simp [hbad hs, mMatMulCompatible, hs]
+  · intro op x s hx
+    obtain ⟨T, hT, _⟩ := scalarOp_get op x s hx
+    exact ⟨T, hT⟩
+  · intro f x hx
+    obtain ⟨M, hM, _⟩ := mMap_get f x hx
+    exact ⟨M, hM⟩
+  · intro x hx
+    obtain ⟨M, hM, _⟩ := mNeg_get x hx
+    exact ⟨M, hM⟩
+
+/-- non-vacuity for the bounded-integer statements: a concrete `i8` vector with `MIN` and `-1` is a
+    well-formed operand whose entries are computed values -/
+example :
+    ∃ T : Tensor String (Ck .i8),
+      Tensor.tryFrom [("s", 2)] [.ok (Num.ofInt .i8 (-128)), .ok (Num.ofInt .i8 (-1))] = some T ∧
+      (Operand.tensor T).WF ∧
+      ∀ idx, inBounds ((Operand.tensor T).shape.map (·.2)) idx = true →
+        (Operand.tensor T).asView.get idx
+          = some (.ok (if idx = [0] then Num.ofInt .i8 (-128) else Num.ofInt .i8 (-1))) := by
+  refine ⟨_, rfl, (tryFrom_valid (shape := [("s", 2)])
+    (data := [(.ok (Num.ofInt .i8 (-128)) : Ck .i8), .ok (Num.ofInt .i8 (-1))]) rfl).1, ?_⟩
+  intro idx hb
+  have hl := inBounds_length hb
+  match idx, hl with
+  | [i], _ =>
+    simp only [Operand.shape, List.map_cons, List.map_nil, inBounds, Bool.and_true,
+      decide_eq_true_eq] at hb
+    match i, hb with
+    | 0, _ => rfl
+    | 1, _ => rfl
+
+/-! ### Bounded integers: what the integer boundary lines of the correspondence check -/
+
+/-- **Operators over the plain integer types with overflow checks.**  At the element type
+    `Ck t` (the outcome of computing an element of the integer type `t`: strict operators, the
+    mathematical result if it fits, `panic(overflow)` otherwise; Model/ArithChecked.lean) the cells
+    of every operator's result are the element type's own plain operator applied cell by cell,
+    and the result-or-panic of the whole operation (`collapse`: the first panic in evaluation
+    order) is that of running the plain operator over the cells in row-major order — for
+    `+`, `-`, the scalar broadcasts, `Neg` (matrices), and, with the products folded in the order
+    `scalar_product` evaluates them (`ckLeftSum`), `scalar_product` and the matrix product.
+    In particular `x - y` is the checked subtraction, not `x + (-y)` (see the example below). -/
+theorem ops_over_checked_ints (t : Num.IntTy) :
+    -- elementwise + and - (any shape, container or view operands)
+    (∀ (l r : Operand ν (Ck t)) (A B : List Nat → Num.Val t), l.WF → r.WF → l.shape = r.shape →
+      (∀ idx, inBounds (l.shape.map (·.2)) idx = true → l.asView.get idx = some (.ok (A idx))) →
+      (∀ idx, inBounds (l.shape.map (·.2)) idx = true → r.asView.get idx = some (.ok (B idx))) →
+      (∃ T, elementwise (· + ·) l r = .ok T ∧ collapse T.data =
+          outcomeMapM (fun idx => Num.pAdd t (A idx) (B idx)) (viewIndices (l.shape.map (·.2)))) ∧
+      (∃ T, elementwise (· - ·) l r = .ok T ∧ collapse T.data =
+          outcomeMapM (fun idx => Num.pSub t (A idx) (B idx)) (viewIndices (l.shape.map (·.2))))) ∧
+    -- scalar broadcasts
+    (∀ (x : Operand ν (Ck t)) (A : List Nat → Num.Val t) (s : Num.Val t), x.WF →
+      (∀ idx, inBounds (x.shape.map (·.2)) idx = true → x.asView.get idx = some (.ok (A idx))) →
+      (∃ T, scalarOp (· + ·) x (.ok s) = .ok T ∧ collapse T.data =
+          outcomeMapM (fun idx => Num.pAdd t (A idx) s) (viewIndices (x.shape.map (·.2)))) ∧
+      (∃ T, scalarOp (· - ·) x (.ok s) = .ok T ∧ collapse T.data =
+          outcomeMapM (fun idx => Num.pSub t (A idx) s) (viewIndices (x.shape.map (·.2)))) ∧
+      (∃ T, scalarOp (· * ·) x (.ok s) = .ok T ∧ collapse T.data =
+          outcomeMapM (fun idx => Num.pMul t (A idx) s) (viewIndices (x.shape.map (·.2)))) ∧
+      (∃ T, scalarOp (· / ·) x (.ok s) = .ok T ∧ collapse T.data =
+          outcomeMapM (fun idx => Num.pDiv t (A idx) s) (viewIndices (x.shape.map (·.2))))) ∧
+    -- matrix product (and scalar_product as its 1 x N . N x 1 case): checked fold per cell
+    (∀ (l r : Arith.TView ν (Ck t)) (a b c d : ν) (m n k : Nat) (A B : Nat → Nat → Num.Val t),
+      l.WF → r.WF → l.shape = [(a, m), (b, n + 1)] → r.shape = [(c, n + 1), (d, k)] → a ≠ d →
+      l.HasEntries m (n + 1) (fun i p => .ok (A i p)) → r.HasEntries (n + 1) k (fun p j => .ok (B p j)) →
+      ∃ T, matMul l r = .ok T ∧ ∀ i j, i < m → j < k →
+        T.get [i, j] = some (ckLeftSum (fun p => Num.pMul t (A i p) (B p j)) n)) ∧
+    -- negation of matrices and matrix views
+    (∀ (x : MOperand (Ck t)) (A : Nat → Nat → Num.Val t), x.WF →
+      (∀ i j, i < x.size.1 → j < x.size.2 → x.asView.get i j = some (.ok (A i j))) →
+      ∃ M, mNeg x = .ok M ∧ ∀ i j, i < x.size.1 → j < x.size.2 → M.tryGet i j = some (pNeg t (A i j))) := by
+  refine ⟨?_, ?_, ?_, ?_⟩
+  · intro l r A B hl hr hs hA hB
+    exact ⟨⟨_, elementwise_data (· + ·) l r hl hr hs _ _ hA hB, collapse_map _ _⟩,
+      ⟨_, elementwise_data (· - ·) l r hl hr hs _ _ hA hB, collapse_map _ _⟩⟩
+  · intro x A s hx hA
+    exact ⟨⟨_, mapOperand_data _ x hx _ hA, collapse_map _ _⟩, ⟨_, mapOperand_data _ x hx _ hA, collapse_map _ _⟩,
+      ⟨_, mapOperand_data _ x hx _ hA, collapse_map _ _⟩, ⟨_, mapOperand_data _ x hx _ hA, collapse_map _ _⟩⟩
+  · intro l r a b c d m n k A B hl hr hls hrs had hA hB
+    obtain ⟨T, hT, _, hget⟩ := matMul_get_eq_sum l r hl hr hls hrs had _ _ hA hB
+    refine ⟨T, hT, fun i j hi hj => ?_⟩
+    rw [hget i j hi hj, leftSum_ck]
+  · intro x A hx hA
+    obtain ⟨M, hM, _, hget⟩ := mNeg_get x hx
+    refine ⟨M, hM, fun i j hi hj => ?_⟩
+    rw [hget i j, hA i j hi hj]
+    rfl
+
+/-- `x - y` is not `x + (-y)` over bounded integers: for `i8`, `-1 - (-128) = 127`, while
+    `-(-128)` overflows (the change C03-r5m1 makes; the harness' integer boundary lines exhibit
+    it on the real code). -/
+example :
+    (match ((.ok (Num.ofInt .i8 (-1)) : Ck .i8) - .ok (Num.ofInt .i8 (-128))) with
+      | .ok v => decide (Num.toInt .i8 v = 127)
+      | .panic _ => false) = true ∧
+    (match ((.ok (Num.ofInt .i8 (-1)) : Ck .i8) + -(.ok (Num.ofInt .i8 (-128)))) with
+      | .panic .overflow => true
+      | _ => false) = true := by
+  decide
 
 /-! ### Every composition of the library's view adaptors is a well-formed operand -/
 
